@@ -197,7 +197,19 @@ func c20BundleOrder2(env *core.Env, seed uint64) {
 	n := 2 + rng.Intn(6)
 	for i := 0; i < n; i++ {
 		if rng.Intn(5) == 0 {
-			b.Entry = append(b.Entry, &bcrpb.Bundle_Entry{FullUrl: &dtpb.Uri{Value: "urn:x"}})
+			e := &bcrpb.Bundle_Entry{FullUrl: &dtpb.Uri{Value: "urn:x"}}
+			switch rng.Intn(3) {
+			case 1:
+				// an entry that carries other payloads but no resource: a response with an outcome, a request
+				oo := (&bcrpb.ContainedResource{}).ProtoReflect()
+				ood := gen.ResourceTypeByName("OperationOutcome")
+				oo.Set(gen.ContainedFieldFor(ood), protoreflect.ValueOfMessage(gen.NewMessage(ood)))
+				e.Response = &bcrpb.Bundle_Entry_Response{Status: &dtpb.String{Value: "400"}, Outcome: oo.Interface().(*bcrpb.ContainedResource)}
+			case 2:
+				e.Request = &bcrpb.Bundle_Entry_Request{Url: &dtpb.Uri{Value: "Patient/1"}}
+				e.Search = &bcrpb.Bundle_Entry_Search{Score: &dtpb.Decimal{Value: "1"}}
+			}
+			b.Entry = append(b.Entry, e)
 			want = append(want, nil)
 			continue
 		}
@@ -487,6 +499,21 @@ func c20Extract(env *core.Env, tn string, seed uint64, noContained bool) {
 		env.Cover("extract-dense")
 	}
 	res := g.Resource(md)
+	if seed%4 == 1 {
+		// long lists: every populated repeated element at the top level is extended to 11..13 items (two-digit indexes)
+		rm := res.ProtoReflect()
+		rm.Range(func(fd protoreflect.FieldDescriptor, v protoreflect.Value) bool {
+			if fd.IsList() && fd.Message() != nil && !gen.IsAny(fd.Message()) && v.List().Len() > 0 {
+				l := v.List()
+				orig := l.Len()
+				for l.Len() < 11+int(seed%3) {
+					l.Append(protoreflect.ValueOfMessage(proto.Clone(l.Get(l.Len() % orig).Message().Interface()).ProtoReflect()))
+				}
+				env.Cover("extract-long-list")
+			}
+			return true
+		})
+	}
 	tree, err := model.BuildTree(res)
 	if err != nil {
 		env.Skip("resource-not-marshallable")
